@@ -500,7 +500,7 @@ def r08a(ctx, rep):
     rep.rule("R08a", "checked-arithmetic discipline: in every arm of +, -, *, /, remainder, quotient (per representation "
              "pair) and of abs/round/floor/ceil/truncate/pow/numerator/denominator/to_exact (per representation) whose "
              "operands are all exact, no primitive fixed-width operation is left unchecked: (1) no overflow / "
-             "division assert on a machine integer, (2) every narrowing cast is dominated by the success edge of a "
+             "division assert on a machine integer and no wrapping_* / saturating_* / unchecked_* call on one, (2) every narrowing cast is dominated by the success edge of a "
              "to_i32().is_some() test of the same value, (3) on fixed-width Ratio only total operations "
              "(checked_*, accessors, conversions, comparison) are called — Ratio::new, the / % operators, pow, abs, "
              "round, floor, ceil, trunc overflow silently or panic. Necessary for 'an exact result never differs from the "
